@@ -141,6 +141,8 @@ fn gen_batch(r: &mut StdRng, n: usize) -> Value {
         };
         if r.gen_bool(0.4) {
             q["query_weight_estimate"] = json!(r.gen_range(1..=9));
+        } else if r.gen_bool(0.08) {
+            q["query_weight_estimate"] = json!("heavy"); // not a number: the balancer falls back to its default weight
         }
         if energy {
             q["model_name"] = json!("camry");
